@@ -83,6 +83,7 @@ theorem refine_callsC (P : Program) (nm : List String → String) (O : Oracle) (
       have hm : c.mapped = true := hmapped'.1
       have hd : c.disabled = none := hmapped'.2.1
       have hex := hmapped'.2.2.1
+      have hrt := runtime_not_treeOk st P.insOf node path self c cs sib _ hm htree
       generalize hr : node c.callee (path ++ [c.id]) (resolveBindsT st self sib (P.insOf c.callee) c) = r
       generalize hci : callIndicesT st self sib (P.insOf c.callee) c = ci at *
       have hsplitL : (staticCallsT st P.insOf node path self (c :: cs) sib []).2
@@ -91,7 +92,7 @@ theorem refine_callsC (P : Program) (nm : List String → String) (O : Oracle) (
                 splitsStaticT st self sib (P.insOf c.callee) c (ci.getD (false, [])) && c.disabled.isNone) r.2] ++
             (staticCallsT st P.insOf node path self cs
               (sib ++ [(c.id, unrolledOutputsT c (ci.getD (false, [])) r.1.exp)]) []).2 := by
-        simp only [staticCallsT, hm, if_true, hr, hci]
+        simp only [staticCallsT, hm, if_true, hr, hci, hrt, Bool.false_eq_true, if_false]
         rw [staticCallsT_acc]
         simp
       rw [hsplitL, flattenTList_append] at hstore
@@ -138,7 +139,7 @@ theorem refine_callsC (P : Program) (nm : List String → String) (O : Oracle) (
         cases ixs with
         | nil => exact absurd rfl hne
         | cons a l => exact ⟨a, by simp⟩
-      simp only [evalCalls, staticCallsT, hm, if_true, hr, hci, hixsP]
+      simp only [evalCalls, staticCallsT, hm, if_true, hr, hci, hixsP, hrt, Bool.false_eq_true, if_false]
       rw [evalCall_mappedC st F P.insOf run path forks env c .arr ixs hm hd hex hidx hne hmode]
       simp only
       have hout : unrolledOutputsT c (false, ixs) r.1.exp
